@@ -409,6 +409,13 @@ func checkRetain[K any](h *hk[K], t Tree[K, uint64], ref *refMap[K], cyc, spec i
 			t.Insert(h.clone(k), v)
 		}
 	}
+	// no removed leaf stays reachable through a slot beyond a node's fan-out, except the one a node4/node16 that
+	// was full keeps in its last physical slot (at most one per inner node: bounded by the content)
+	pinned := func() bool {
+		st := h.state(t)
+		return vpReachableLeaves(st) <= uint64(st.size)+wfInner(st.root, 0)
+	}
+	vpAssert(pinned(), "C17 removed leaves stay reachable through unoccupied slots of the index (before the cycle)")
 	cycle() // warm-up
 	r1 := vpRetainedTree(t)
 	n := vpReps(2, 100000)
@@ -418,6 +425,7 @@ func checkRetain[K any](h *hk[K], t Tree[K, uint64], ref *refMap[K], cyc, spec i
 	r2 := vpRetainedTree(t)
 	vpTrace("retained.same", vpB2U(vpNoGrowth(r1, r2, 0)))
 	vpAssert(vpNoGrowth(r1, r2, 0), "C17 retained memory grew although the content did not (per-operation leak)")
+	vpAssert(pinned(), "C17 removed leaves stay reachable through unoccupied slots of the index (after the cycles)")
 	if cyc == 3 {
 		// finally delete everything: the tree keeps no more than an empty tree plus a small constant
 		for i := range ref.ents {
@@ -480,11 +488,24 @@ func checkPure[K any](h *hk[K], t Tree[K, uint64], ref *refMap[K], which, sa, sb
 		vpRunConcurrently(q, q)
 		return
 	}
+	// the arguments exist before the window opens: building a key may write harness state (the table codec
+	// registers an encoding), which is not a store made by the query
+	var qa, qb K
+	switch which {
+	case 0, 3:
+		qa = h.clone(mkKey(h, sa))
+	case 4:
+		a, b := mkKey(h, sa), mkKey(h, sb)
+		if h.badBound != nil {
+			vpAssume(!h.badBound(a, b))
+		}
+		qa, qb = h.clone(a), h.clone(b)
+	}
 	vpReaderWindow(1)
 	vpApi()
 	switch which {
 	case 0:
-		t.Search(h.clone(mkKey(h, sa)))
+		t.Search(qa)
 	case 1:
 		t.Minimum()
 		t.Maximum()
@@ -493,13 +514,9 @@ func checkPure[K any](h *hk[K], t Tree[K, uint64], ref *refMap[K], which, sa, sb
 		collect(t.All())
 		collect(t.Backward())
 	case 3:
-		collect(t.Prefix(h.clone(mkKey(h, sa))))
+		collect(t.Prefix(qa))
 	case 4:
-		a, b := mkKey(h, sa), mkKey(h, sb)
-		if h.badBound != nil {
-			vpAssume(!h.badBound(a, b))
-		}
-		collect(t.Range(h.clone(a), h.clone(b)))
+		collect(t.Range(qa, qb))
 	case 5:
 		collect(t.TopK(uint(vpU64())))
 		collect(t.BottomK(uint(vpU64())))
